@@ -130,6 +130,33 @@ Theorem C17_frame :
 Proof. exact frame. Qed.
 Print Assumptions C17_frame.
 
+(* Initialise, then publish.  In the model the pool object gets its New
+   function when it is built, BEFORE the CompareAndSwap that publishes it (as
+   garbleScratchPool does); then, for all programs, schedules and prefixes:
+   whatever is installed, is the CAS argument of a goroutine, or is about to be
+   used for Get has its New function, and no Garble ever panics on a nil
+   pool.Get() — C17_linearizable above depends on this invariant. *)
+Theorem C17_pool_initialised_before_published :
+  forall (progs : list (list op)) (sched : list sitem),
+    let st := run_from (init progs) sched in
+    (forall p, s_ptr st = Some p -> s_newset st p = true) /\
+    (forall t seed p, t_pc (s_thr st t) = GCas seed p \/ t_pc (s_thr st t) = GGet seed p -> s_newset st p = true) /\
+    (forall t, ~ In RPanic (t_res (s_thr st t))).
+Proof.
+  intros progs sched st. destruct (run_initinv progs sched) as (_ & A & B & _).
+  split; [exact A|]. split; [exact B|]. intros t. apply no_panic.
+Qed.
+Print Assumptions C17_pool_initialised_before_published.
+
+(* REGRESSION RECORD.  In the variant that publishes an EMPTY pool first and
+   assigns New afterwards, two goroutines on first use suffice: the one that
+   finds the pointer already set calls Get before New exists and panics. *)
+Theorem C17_publish_then_initialise_refuted :
+  let st := run_from (init_cfg false true late_progs) late_sched in
+  t_res (s_thr st 1) = [RPanic] /\ t_pc (s_thr st 0) = GInit 1 0 /\ s_ptr st = Some 0 /\ s_newset st 0 = false.
+Proof. exact late_init_refuted. Qed.
+Print Assumptions C17_publish_then_initialise_refuted.
+
 (* REGRESSION RECORD.  In the variant of the model in which the error returns
    inside Garble's two loops put the scratch back TWICE (explicit Put plus a
    deferred cleanup), one failed Garble followed by two overlapping garblings
@@ -138,11 +165,11 @@ Print Assumptions C17_frame.
    held the scratch twice.  (harness c17 exercises these histories on the
    implementation.) *)
 Theorem C17_double_put_refuted :
-  let st := run_from (init_cfg true dput_progs) dput_sched in
+  let st := run_from (init_cfg true false dput_progs) dput_sched in
   live (s_thr st 0) 0 = true /\ live (s_thr st 1) 0 = true /\
   h_scr (t_h (s_thr st 0) 0) = h_scr (t_h (s_thr st 1) 0) /\
   s_contents st (h_scr (t_h (s_thr st 0) 0)) <> h_gid (t_h (s_thr st 0) 0) /\
   exclusive 2 st = false /\
-  s_pool (run_from (init_cfg true dput_progs) (firstn 4 dput_sched)) 0 = [0; 0].
+  s_pool (run_from (init_cfg true false dput_progs) (firstn 4 dput_sched)) 0 = [0; 0].
 Proof. exact double_put_refuted. Qed.
 Print Assumptions C17_double_put_refuted.
